@@ -862,7 +862,8 @@ func grpcErrorToTrailer(bufferPool *bufferPool, trailer http.Header, protobuf Co
 		trailer.Del(grpcHeaderDetails)
 		return
 	}
-	code := strconv.Itoa(int(status.Code))
+	// The status message holds the code as an int32; Codes are unsigned.
+	code := strconv.FormatUint(uint64(uint32(status.Code)), 10 /* base */)
 	bin, binErr := protobuf.Marshal(status)
 	if binErr != nil {
 		trailer.Set(
